@@ -39,19 +39,44 @@ inductive Result (α : Type) where
   | flow (q : α)
   | operatingPointError
 
-/-- `find_operating_point`: infeasible at the minimum-friction flow ⇒ OperatingPointError; otherwise the secant on the head gap from qimin and
-the midpoint to the largest flow; not converged ⇒ OperatingPointError; a converged flow is returned only if system and pump head there
-agree within 1e-6 relative (the secant stops on the flow step, which is also met on a jump of the pump curve).
-`heads q` = (system head, pump head) for slurry at flow q. -/
-def findOp (heads : α → α × α) (sysAtQimin pumpAtQimin qimin qlast : α) : Result α :=
-  let gap := fun q => (heads q).1 - (heads q).2
-  if sysAtQimin > pumpAtQimin then .operatingPointError
-  else match secant gap (1.48e-8 : α) 50 qimin ((qimin + qlast) / (2.0 : α)) with
-    | .converged r =>
-      let hs := (heads r).1
-      let hp := (heads r).2
-      if Transc.abs (hs - hp) ≤ (1e-6 : α) * pyMax (pyMax (Transc.abs hs) (Transc.abs hp)) (1.0 : α) then .flow r else .operatingPointError
+/-- the acceptance test applied to every candidate flow: system and pump head agree within 1e-6 relative -/
+def headsOk (heads : α → α × α) (r : α) : Bool :=
+  let hs := (heads r).1
+  let hp := (heads r).2
+  decide (Transc.abs (hs - hp) ≤ (1e-6 : α) * pyMax (pyMax (Transc.abs hs) (Transc.abs hp)) (1.0 : α))
+
+/-- the second attempt: only if the system curve is above the pump curve at the largest flow; `bracket` = outcome of scipy's brentq on [qimin, qlast] -/
+def fallback (heads : α → α × α) (qlast : α) (bracket : Outcome α) : Result α :=
+  if (heads qlast).1 - (heads qlast).2 > 0.0 then
+    match bracket with
+    | .converged r => if headsOk heads r then .flow r else .operatingPointError
     | .notConverged _ => .operatingPointError
+  else .operatingPointError
+
+/-- `find_operating_point`: infeasible at the minimum-friction flow ⇒ OperatingPointError; otherwise the secant on the head gap from qimin and
+the midpoint to the largest flow; a converged flow is returned only if it passes `headsOk` (the secant stops on the flow step, which is
+also met on a jump of the pump curve). If the secant did not deliver (not converged, left the curve range, heads differ) and the system curve is
+above the pump curve at the largest flow, scipy's bracketing solver (brentq on [qimin, qlast]) is asked; its outcome is the parameter `bracket`
+(external library, not modelled) and is again returned only if it passes `headsOk`.
+`heads q` = (system head, pump head) for slurry at flow q. -/
+def firstAttempt (heads : α → α × α) (qimin qlast : α) : Option α :=
+  match secant (fun q => (heads q).1 - (heads q).2) (1.48e-8 : α) 50 qimin ((qimin + qlast) / (2.0 : α)) with
+  | .converged r => if headsOk heads r then some r else none
+  | .notConverged _ => none
+
+def findOp (heads : α → α × α) (sysAtQimin pumpAtQimin qimin qlast : α) (bracket : Outcome α) : Result α :=
+  if sysAtQimin > pumpAtQimin then .operatingPointError
+  else
+    match firstAttempt heads qimin qlast with
+    | some r => .flow r
+    | none => fallback heads qlast bracket
+
+/-- does `find_operating_point` call the bracketing solver at all? (compared with the recorded calls of the implementation) -/
+def consultsBracket (heads : α → α × α) (sysAtQimin pumpAtQimin qimin qlast : α) : Bool :=
+  if sysAtQimin > pumpAtQimin then false
+  else match firstAttempt heads qimin qlast with
+    | some _ => false
+    | none => decide ((heads qlast).1 - (heads qlast).2 > 0.0)
 
 end
 end Spec.OpPoint
